@@ -395,6 +395,92 @@ pub fn run(cfg: &Cfg) -> i32 {
         rt_steps = steps.load(Ordering::Relaxed);
     }
 
+    // ---------- process-level leg: the same claim through the real REPL (line = compile then run)
+    let mut repl_runs = 0u64;
+    {
+        use crate::repl_leg::*;
+        let pre: Vec<&str> = if quick { vec!["", "5 var v"] } else { vec!["", "5 var v", "7 8", ": h 1 ;"] };
+        let rej: Vec<&String> = rejected.iter().step_by(if quick { 37 } else { 11 }).collect();
+        let post: Vec<&str> = if quick { vec!["", "v 1 + ! v"] } else { vec!["", "v 1 + ! v", "h"] };
+        let probes: Vec<&str> = if quick { vec!["depth", ": p 1 ; p", "f g w"] } else { vec!["depth", "9 var y y", ": p 1 ; p", "true if 2 then", "f g w"] };
+        let mut jobs: Vec<(Vec<String>, Vec<String>, String)> = vec![];
+        for a in &pre {
+            for r in &rej {
+                if r.contains('\n') {
+                    continue; // one REPL line per source
+                }
+                for b in &post {
+                    for q in &probes {
+                        let mk = |with: bool| -> Vec<String> {
+                            let mut v: Vec<String> = vec![];
+                            if !a.is_empty() {
+                                v.push(a.to_string());
+                            }
+                            if with {
+                                v.push(r.to_string());
+                            }
+                            if !b.is_empty() {
+                                v.push(b.to_string());
+                            }
+                            v.push(probe_line(""));
+                            v.push(q.to_string());
+                            v
+                        };
+                        jobs.push((mk(true), mk(false), r.to_string()));
+                    }
+                }
+            }
+        }
+        // run-time failures: the marker of the failing line appears once
+        let cnt = AtomicU64::new(0);
+        par_run(cfg.threads, jobs.len(), 4, |_t, pull| {
+            while let Some(rg) = pull() {
+                for j in rg {
+                    let (with, without, r) = &jobs[j];
+                    cnt.fetch_add(2, Ordering::Relaxed);
+                    match (run_repl(with), run_repl(without)) {
+                        (Ok(a), Ok(b)) => {
+                            if a != b {
+                                rep.report_w("repl:rejected-line-has-effect", (with.len() * 100 + r.len()) as u64, || {
+                                    jo(vec![
+                                        ("kind", js("repl-lines")),
+                                        ("lines", J::A(with.iter().map(|l| js(l.clone())).collect())),
+                                        ("same_without", js(r.clone())),
+                                        ("output_after_marker_with", js(truncate(&a, 300))),
+                                        ("output_after_marker_without", js(truncate(&b, 300))),
+                                    ])
+                                });
+                            }
+                        }
+                        (a, b) => {
+                            cleanup();
+                            machinery_error(&format!("REPL leg: {:?} {:?}", a.err(), b.err()))
+                        }
+                    }
+                }
+            }
+        });
+        for f in FAILING.iter() {
+            for q in ["depth", "4"] {
+                let lines = vec![f.to_string(), "1".to_string(), q.to_string()];
+                // count the failing line's marker in the whole transcript: needs the full stdout, so put the marker probe last and count <9> via a second run without MARK cut
+                let all = run_repl_full(&lines);
+                cnt.fetch_add(1, Ordering::Relaxed);
+                match all {
+                    Ok(t) => {
+                        if t.matches("<9>").count() != 1 {
+                            rep.report_w("repl:reexecution-after-runtime-error", lines.len() as u64, || jo(vec![("kind", js("repl-lines")), ("lines", J::A(lines.iter().map(|l| js(l.clone())).collect())), ("transcript", js(truncate(&t, 400)))]));
+                        }
+                    }
+                    Err(e) => machinery_error(&format!("REPL leg: {}", e)),
+                }
+            }
+        }
+        repl_runs = cnt.load(Ordering::Relaxed);
+        cleanup();
+    }
+    ev.add("repl_process_runs", ji(repl_runs));
+
     ev.states = states.len() as u64;
     ev.transitions = bfs_transitions + n_apps.load(Ordering::Relaxed) + n_probe_runs.load(Ordering::Relaxed) + rt_steps;
     ev.traces = n_apps.load(Ordering::Relaxed) + rt_histories;
